@@ -59,9 +59,10 @@ var scenarios = map[string]func(*child){
 	"cli-retry":       scCliRetry,
 	"sse-retry":       scSSERetry,
 	"srv-registry":    scSrvRegistry,
+	"arg-reuse":       scArgReuse,
 }
 
-var scenarioOrder = []string{"srv-streamable", "srv-resume", "cli-streamable", "cli-first", "sse", "sse-first", "sse-reendpoint", "srv-stdio", "cli-stdio", "cli-stdio-first", "cli-retry", "sse-retry", "srv-registry"}
+var scenarioOrder = []string{"srv-streamable", "srv-resume", "cli-streamable", "cli-first", "sse", "sse-first", "sse-reendpoint", "srv-stdio", "cli-stdio", "cli-stdio-first", "cli-retry", "sse-retry", "srv-registry", "arg-reuse"}
 
 func childMain(name string) {
 	if name == "stdio-server" {
@@ -1167,6 +1168,334 @@ func retryScenario(ch *child, kind string) {
 // scCliRetry / scSSERetry: the retry scenario for the two client kinds that implement retry.
 func scCliRetry(ch *child) { retryScenario(ch, "streamable") }
 func scSSERetry(ch *child) { retryScenario(ch, "sse") }
+
+// ---------------------------------------------------------------------------------------------------------------
+// the caller's memory behind API arguments
+//
+// A caller owns what it passes: when a call of the public API has returned, it may reuse the map / slice / object it
+// passed (a progress loop keeps ONE params map).  Every probe below is a top-level function named
+// arg_<Type>_<Method>__<param> (the parent recognises a race report by this name on the stack of the harness-side
+// access: `races:arg:<Type>.<Method>:<param>`); it calls the API and writes to the argument right after the call
+// returned — nothing in between that could order the write with what the library does on its own goroutines (no
+// channel, lock or network operation of the harness; plain sleeps only).
+
+func arg_SSEServer_SendNotification__params(ch *child, s *mcp.SSEServer, sid string, n int) {
+	params := map[string]interface{}{"seq": 0, "note": "progress"}
+	for i := 1; i <= n; i++ {
+		params["seq"] = i
+		err := s.SendNotification(sid, "custom/progress", params)
+		params["seq"] = -i // the call has returned: the map is the caller's again
+		params["again"] = i
+		delete(params, "again")
+		ch.did(err)
+		if i%8 == 0 {
+			time.Sleep(300 * time.Microsecond)
+		}
+	}
+}
+
+func arg_Server_SendNotification__params(ch *child, s *mcp.Server, sid string, n int) {
+	params := map[string]interface{}{"seq": 0, "_meta": map[string]interface{}{"k": "v"}}
+	for i := 1; i <= n; i++ {
+		params["seq"] = i
+		params["_meta"] = map[string]interface{}{"k": i}
+		err := s.SendNotification(sid, "custom/progress", params)
+		params["seq"] = -i
+		params["again"] = i
+		delete(params, "again")
+		ch.did(err)
+	}
+}
+
+func arg_Server_BroadcastNotification__params(ch *child, s *mcp.Server, n int) {
+	params := map[string]interface{}{"seq": 0}
+	for i := 1; i <= n; i++ {
+		params["seq"] = i
+		_, err := s.BroadcastNotification("custom/progress", params)
+		params["seq"] = -i
+		params["again"] = i
+		delete(params, "again")
+		ch.did(err)
+	}
+}
+
+func arg_Server_SendFilteredNotification__params(ch *child, s *mcp.Server, n int) {
+	params := map[string]interface{}{"seq": 0}
+	for i := 1; i <= n; i++ {
+		params["seq"] = i
+		_, _, err := s.SendFilteredNotification("custom/progress", params, func(string) bool { return true })
+		params["seq"] = -i
+		params["again"] = i
+		delete(params, "again")
+		ch.did(err)
+	}
+}
+
+func rootsRequest(params map[string]interface{}) *mcp.JSONRPCRequest {
+	r := &mcp.JSONRPCRequest{JSONRPC: "2.0", Params: params}
+	r.Method = "roots/list"
+	return r
+}
+
+// … SendRequest: with a live context (the answer is awaited) and with one that has already ended (the call comes back
+// at once, whatever it did with the request)
+func arg_Server_SendRequest__request(ch *child, s *mcp.Server, sid string, n int) {
+	params := map[string]interface{}{"seq": 0}
+	for i := 1; i <= n; i++ {
+		ctx, cancel := context.WithTimeout(context.Background(), 3*time.Second)
+		if i%2 == 0 {
+			cancel()
+		}
+		params["seq"] = i
+		req := rootsRequest(params)
+		_, err := s.SendRequest(ctx, sid, req)
+		params["seq"] = -i
+		req.Method = "reused"
+		req.Params = nil
+		cancel()
+		ch.did(map[bool]error{true: nil, false: err}[i%2 == 0])
+	}
+}
+
+func arg_SSEServer_SendRequest__request(ch *child, s *mcp.SSEServer, sid string, n int) {
+	params := map[string]interface{}{"seq": 0}
+	for i := 1; i <= n; i++ {
+		ctx, cancel := context.WithTimeout(context.Background(), 3*time.Second)
+		if i%2 == 0 {
+			cancel()
+		}
+		params["seq"] = i
+		req := rootsRequest(params)
+		_, err := s.SendRequest(ctx, sid, req)
+		params["seq"] = -i
+		req.Method = "reused"
+		req.Params = nil
+		cancel()
+		ch.did(map[bool]error{true: nil, false: err}[i%2 == 0])
+	}
+}
+
+// inside a tool handler of a stdio server (the session travels in the handler's context)
+func arg_StdioServer_SendRequest__request(ch *child, ctx context.Context, s *mcp.StdioServer, i int) {
+	c2, cancel := context.WithTimeout(ctx, 3*time.Second)
+	if i%2 == 0 {
+		cancel()
+	}
+	params := map[string]interface{}{"seq": i}
+	req := rootsRequest(params)
+	_, err := s.SendRequest(c2, req)
+	params["seq"] = -i
+	req.Method = "reused"
+	req.Params = nil
+	cancel()
+	ch.did(map[bool]error{true: nil, false: err}[i%2 == 0])
+}
+
+// the notification sender a handler finds in its context
+func arg_sseNotificationSender_SendCustomNotification__params(ch *child, ctx context.Context) {
+	sender, ok := mcp.GetNotificationSender(ctx)
+	if !ok {
+		return
+	}
+	params := map[string]interface{}{"seq": 0, "_meta": map[string]interface{}{"k": "v"}}
+	for i := 1; i <= 4; i++ {
+		params["seq"] = i
+		err := sender.SendCustomNotification("custom/progress", params)
+		params["seq"] = -i
+		params["again"] = i
+		delete(params, "again")
+		ch.did(err)
+	}
+}
+
+func arg_sseNotificationSender_SendNotification__notification(ch *child, ctx context.Context) {
+	sender, ok := mcp.GetNotificationSender(ctx)
+	if !ok {
+		return
+	}
+	fields := map[string]interface{}{"seq": 0}
+	n := &mcp.Notification{Method: "custom/progress", Params: mcp.NotificationParams{AdditionalFields: fields}}
+	for i := 1; i <= 4; i++ {
+		fields["seq"] = i
+		err := sender.SendNotification(n)
+		fields["seq"] = -i
+		n.Method = "custom/progress"
+		ch.did(err)
+	}
+}
+
+// a client that keeps ONE request object: live and (every other call) already ended contexts
+func arg_Client_CallTool__callToolReq(ch *child, c connector, n int) {
+	req := &mcp.CallToolRequest{}
+	req.Params.Name = "work"
+	req.Params.Arguments = map[string]interface{}{"tag": "t0"}
+	for i := 1; i <= n; i++ {
+		ctx, cancel := context.WithTimeout(context.Background(), 5*time.Second)
+		if i%3 == 0 {
+			cancel()
+		}
+		req.Params.Arguments["tag"] = fmt.Sprintf("t%d", i)
+		_, err := c.CallTool(ctx, req)
+		req.Params.Arguments["tag"] = "reused"
+		req.Params.Arguments["again"] = i
+		delete(req.Params.Arguments, "again")
+		cancel()
+		ch.did(map[bool]error{true: nil, false: err}[i%3 == 0])
+	}
+}
+
+// a tool built from the caller's slices, registered, listed by clients meanwhile
+func arg_Enum__values(ch *child, r registrar, k int) {
+	vals := []string{"a", "b", "c"}
+	req := []string{"mode"}
+	for i := 0; i < k; i++ {
+		name := fmt.Sprintf("enum%d", i%3)
+		vals[0] = fmt.Sprintf("a%d", i)
+		tool := mcp.NewTool(name, mcp.WithDescription("d"), mcp.WithString("mode", mcp.Enum(vals...), mcp.Description("m")), mcp.WithArray("list", mcp.Description("l")))
+		_ = req
+		r.tool(tool, toolWork)
+		vals[0] = "reused" // NewTool has applied the options: the slice is the caller's again
+		vals[2] = "reused"
+		ch.did(nil)
+	}
+}
+
+func arg_Server_UnregisterTools__names(ch *child, r registrar, k int) {
+	names := []string{"", ""}
+	for i := 0; i < k; i++ {
+		names[0], names[1] = fmt.Sprintf("enum%d", i%3), fmt.Sprintf("gone%d", i)
+		r.unregTools(names...)
+		names[0], names[1] = "reused", "reused"
+		ch.did(nil)
+	}
+}
+
+// scArgReuse: every probe against a live peer, so that whatever the library queued is really encoded by its writers.
+func scArgReuse(ch *child) {
+	n := 40 * ch.scale
+	bg := context.Background()
+	// legacy SSE server, the library's own client as the peer
+	{
+		s, ts, gen := newSSESrv()
+		c := newSSEClient(ts.URL + "/sse")
+		c.RegisterNotificationHandler("custom/progress", func(*mcp.JSONRPCNotification) error { return nil })
+		c.SetRootsProvider(roots{[]mcp.Root{{URI: "file:///a", Name: "a"}}})
+		_, err := c.Initialize(bg, &mcp.InitializeRequest{})
+		ch.did(err)
+		if ids := gen.all(); len(ids) > 0 {
+			sid := ids[len(ids)-1]
+			arg_SSEServer_SendNotification__params(ch, s, sid, 3*n)
+			arg_SSEServer_SendRequest__request(ch, s, sid, n/4)
+		}
+		arg_Client_CallTool__callToolReq(ch, c, n/2)
+		time.Sleep(20 * time.Millisecond) // what is still queued gets written
+		c.Close()
+		ts.CloseClientConnections()
+		ts.Close()
+	}
+	// streamable server, client with a GET stream; a tool whose handler uses the sender of its context
+	{
+		f := newStreamSrv(false)
+		f.s.RegisterTool(mcp.NewTool("argsender", mcp.WithString("tag")), func(ctx context.Context, req *mcp.CallToolRequest) (*mcp.CallToolResult, error) {
+			arg_sseNotificationSender_SendCustomNotification__params(ch, ctx)
+			arg_sseNotificationSender_SendNotification__notification(ch, ctx)
+			return mcp.NewTextResult("sent"), nil
+		})
+		c := newStreamClient(f.url)
+		c.RegisterNotificationHandler("custom/progress", func(*mcp.JSONRPCNotification) error { return nil })
+		c.SetRootsProvider(roots{[]mcp.Root{{URI: "file:///a", Name: "a"}}})
+		_, err := c.Initialize(bg, &mcp.InitializeRequest{})
+		ch.did(err)
+		sid := c.GetSessionID()
+		waitStream(f.s, sid)
+		stop := atomic.Bool{}
+		var lw sync.WaitGroup
+		lw.Add(1)
+		go func() { // another client lists the tools while entries are built from reused slices
+			defer lw.Done()
+			c2 := newStreamClient(f.url)
+			c2.Initialize(bg, &mcp.InitializeRequest{})
+			for !stop.Load() {
+				_, err := c2.ListTools(bg, &mcp.ListToolsRequest{})
+				ch.did(err)
+			}
+			c2.Close()
+		}()
+		arg_Server_SendNotification__params(ch, f.s, sid, n)
+		arg_Server_BroadcastNotification__params(ch, f.s, n)
+		arg_Server_SendFilteredNotification__params(ch, f.s, n)
+		arg_Server_SendRequest__request(ch, f.s, sid, n/4)
+		arg_Enum__values(ch, regServer(f.s), n/2)
+		arg_Server_UnregisterTools__names(ch, regServer(f.s), n/2)
+		arg_Client_CallTool__callToolReq(ch, c, n/2)
+		for i := 0; i < 3; i++ {
+			req := &mcp.CallToolRequest{}
+			req.Params.Name = "argsender"
+			_, err := c.CallTool(bg, req)
+			ch.did(err)
+		}
+		stop.Store(true)
+		lw.Wait()
+		c.Close()
+		f.close()
+	}
+	// stdio server on pipes: a tool whose handler issues server→client requests
+	{
+		s := newStdioSrv()
+		var calls atomic.Int64
+		s.RegisterTool(mcp.NewTool("argreq", mcp.WithString("tag")), func(ctx context.Context, req *mcp.CallToolRequest) (*mcp.CallToolResult, error) {
+			arg_StdioServer_SendRequest__request(ch, ctx, s, int(calls.Add(1)))
+			return mcp.NewTextResult("asked"), nil
+		})
+		inR, inW := io.Pipe()
+		outR, outW := io.Pipe()
+		ctx, cancel := context.WithCancel(bg)
+		served := make(chan struct{})
+		go func() { defer close(served); mcp.VerifServeStdio(ctx, s, inR, outW); outW.Close() }()
+		var wmu sync.Mutex
+		write := func(v any) {
+			b, _ := json.Marshal(v)
+			wmu.Lock()
+			inW.Write(append(b, '\n'))
+			wmu.Unlock()
+		}
+		var answered atomic.Int64
+		readerDone := make(chan struct{})
+		go func() {
+			defer close(readerDone)
+			br := bufio.NewReaderSize(outR, 1<<20)
+			for {
+				line, err := br.ReadBytes('\n')
+				if err != nil {
+					return
+				}
+				var m map[string]any
+				if json.Unmarshal(bytes.TrimSpace(line), &m) != nil {
+					continue
+				}
+				if m["method"] != nil && m["id"] != nil {
+					go write(map[string]any{"jsonrpc": "2.0", "id": m["id"], "result": map[string]any{"roots": []any{}}})
+				} else if m["id"] != nil {
+					answered.Add(1)
+				}
+			}
+		}()
+		write(map[string]any{"jsonrpc": "2.0", "id": 1, "method": "initialize",
+			"params": map[string]any{"protocolVersion": "2025-03-26", "capabilities": map[string]any{}, "clientInfo": map[string]any{"name": "v", "version": "1"}}})
+		write(map[string]any{"jsonrpc": "2.0", "method": "notifications/initialized"})
+		k := n / 4
+		for i := 0; i < k; i++ {
+			write(map[string]any{"jsonrpc": "2.0", "id": 2 + i, "method": "tools/call", "params": map[string]any{"name": "argreq", "arguments": map[string]any{"tag": "x"}}})
+		}
+		for d := time.Now().Add(5 * time.Second); answered.Load() < int64(k+1) && time.Now().Before(d); {
+			time.Sleep(2 * time.Millisecond)
+		}
+		cancel()
+		inW.Close()
+		<-served
+		<-readerDone
+	}
+}
 
 // ---------------------------------------------------------------------------------------------------------------
 // stdio
